@@ -30,10 +30,10 @@ NID = re.compile(r"(?:ns=\d+;)?[isgb]=[^\s]+")
 BUILD_COUNT = [0]
 
 
-def build(files, scratch, name):
+def build(files, scratch, name, with_base=True):
     from opcua_tools import UAGraph
     d = scratch.sub(name)
-    scratch.write(d, files, with_base=True)
+    scratch.write(d, files, with_base=with_base)
     paths = sorted(os.path.join(d, f) for f in os.listdir(d))
     BUILD_COUNT[0] += 1
     try:
@@ -146,6 +146,52 @@ def closure_cases(run, sc, n):
             run.disagree(case, mo, exp_model)
 
 
+def standalone_cases(run, sc, n):
+    """document sets that do not include the OPC UA base document: self-contained (own reference type, own
+    data type, references among their own nodes only) they build; with one end point taken out they do not"""
+    from opcua_tools import UAGraph
+    rng = run.rng
+    for i in range(n):
+        k = rng.randint(2, 6)
+        uri = "urn:standalone:%d" % i
+        rt = "ns=1;i=1"
+        nodes = ['<UAReferenceType NodeId="ns=1;i=1" BrowseName="1:Links"><DisplayName>Links</DisplayName><References/></UAReferenceType>',
+                 '<UADataType NodeId="ns=1;i=2" BrowseName="1:Kind"><DisplayName>Kind</DisplayName><References><Reference ReferenceType="%s" IsForward="false">ns=1;i=1</Reference></References></UADataType>' % rt]
+        victim = rng.choice([None, None] + list(range(10, 10 + k)))
+        for j in range(k):
+            refs = "".join('<Reference ReferenceType="%s"%s>ns=1;i=%d</Reference>' % (rt, ' IsForward="false"' if rng.random() < 0.4 else "", 10 + t)
+                           for t in sorted(rng.sample(range(k), rng.randint(0, min(2, k)))) if t != j)
+            cls = rng.choice(["UAObject", "UAVariable"])
+            extra = ' DataType="ns=1;i=2"' if cls == "UAVariable" else ""
+            if victim == 10 + j:
+                continue
+            nodes.append('<%s NodeId="ns=1;i=%d" BrowseName="1:n%d"%s><DisplayName>n%d</DisplayName><References>%s</References></%s>' % (cls, 10 + j, j, extra, j, refs, cls))
+        text = ('<?xml version="1.0" encoding="utf-8"?>\n<UANodeSet xmlns="http://opcfoundation.org/UA/2011/03/UANodeSet.xsd"><NamespaceUris><Uri>%s</Uri></NamespaceUris>'
+                '<Models><Model ModelUri="%s" Version="1" PublicationDate="2020-01-01T00:00:00Z"/></Models><Aliases/>\n%s\n</UANodeSet>' % (uri, uri, "\n".join(nodes)))
+        d = sc.sub("sa%d" % i)
+        path = os.path.join(d, "only.xml")
+        open(path, "w", encoding="utf-8").write(text)
+        io = P.impl_parse_files([path])
+        if "err" in io:
+            run.violation({"files": {"only.xml": text}}, {"what": "parse_xml_files raised on a self-contained document", "impl": io})
+            return
+        ids = {r["int_id"] for r in io["nodes"]}
+        closed = all(r[0] in ids and r[1] in ids for r in io["nrefs"])
+        run.case({"standalone": i, "closed": closed}, nontrivial=True, tag="standalone:" + ("closed" if closed else "open"))
+        try:
+            UAGraph.from_file_list([path]) if i % 2 else UAGraph.from_path(d)
+            res = "built"
+        except ValueError:
+            res = "ValueError"
+        except Exception as e:  # noqa: BLE001
+            res = type(e).__name__ + ": " + str(e)[:200]
+        if res != ("built" if closed else "ValueError"):
+            run.violation({"files": {"only.xml": text}, "without_base": True},
+                          {"what": "a document set without the base document: every reference end point is %sdefined in it, construction gave %s" % ("" if closed else "not ", res),
+                           "call": "UAGraph.from_file_list / from_path"})
+            return
+
+
 LOOKUP_CALLS = [0]
 
 
@@ -223,6 +269,9 @@ def explore(run):
         closure_cases(run, sc, 700 if thorough else 45)
         if run.full():
             return
+        standalone_cases(run, sc, 200 if thorough else 16)
+        if run.full():
+            return
         for _ in range(20 if thorough else 2):
             lookup_cases(run, sc, 400 if thorough else 200)
             if run.full():
@@ -239,7 +288,7 @@ def replay(run, path):
     case = body["case"]
     if "files" in case:
         with minibase.Scratch() as sc:
-            res = build(case["files"], sc, "r")
+            res = build(case["files"], sc, "r", with_base=not case.get("without_base"))
             print("construction:", {k: (v if k != "graph" else "<UAGraph>") for k, v in res.items()})
     print("recorded detail:", json.dumps(body["detail"], default=str, ensure_ascii=False)[:3000])
     print("VIOLATION property=C11 replay=%s" % path)
